@@ -52,18 +52,30 @@ from wpull.application.hook import Actions
 from wpull.application.plugin import WpullPlugin, PluginFunctions, hook
 
 
+CALLS = {}
+
+
+def again(url, marker):
+    # (circuit breaker: after 60 calls for one URL the script gives in, so that a crawler that ignores its limits comes to
+    # an end and the overshoot can be reported from the request log)
+    if marker not in url:
+        return Actions.NORMAL
+    CALLS[url] = CALLS.get(url, 0) + 1
+    return Actions.RETRY if CALLS[url] <= 60 else Actions.NORMAL
+
+
 class RetryEverything(WpullPlugin):
     @hook(PluginFunctions.handle_pre_response)
     def pre(self, item_session):
-        return Actions.RETRY if '/hookpre/' in item_session.request.url else Actions.NORMAL
+        return again(item_session.request.url, '/hookpre/')
 
     @hook(PluginFunctions.handle_response)
     def resp(self, item_session):
-        return Actions.RETRY if '/hookresp/' in item_session.request.url else Actions.NORMAL
+        return again(item_session.request.url, '/hookresp/')
 
     @hook(PluginFunctions.handle_error)
     def err(self, item_session, error):
-        return Actions.RETRY if '/hookerr/' in item_session.request.url else Actions.NORMAL
+        return again(item_session.request.url, '/hookerr/')
 '''
 HOOK_FAMILIES = ('hookpre', 'hookresp', 'hookerr')
 
